@@ -7,6 +7,10 @@ count).  After every operation everything observable is compared.
 Operations (plain lists):
   ["acq", mode]          mode "plain" | "rr" (the grant callback releases re-entrantly)
   ["run", beh]           beh "ret" | "raise" | "dfr" (returns a Deferred fired later)
+                              | "raise:exit" | "raise:kbi" | "raise:genexit" | "raise:acancel" |
+                                "raise:base": the function fails with an exception that is NOT an
+                                Exception subclass (SystemExit, KeyboardInterrupt, GeneratorExit,
+                                asyncio.CancelledError, a direct BaseException subclass)
                               | "dok" / "dbad" (returns an already fired Deferred)
                          shapes whose result is NOT available when the function returns
                          although the returned object may look finished:
@@ -20,13 +24,17 @@ Operations (plain lists):
                               | "coro"     an `async def` function awaiting an unfired Deferred
   ["rel", j]             holder j (a granted, unreleased "plain" acquisition) releases
   ["cancel", j]          cancel the Deferred of item j (pending, granted, running or finished)
-  ["fire", j, ok]        fire the Deferred returned by run j's function
+  ["fire", j, ok]        fire the Deferred returned by run j's function; ok is true, false
+                         (fails with an Exception) or a family name "exit"|"kbi"|... (fails
+                         with that non-Exception BaseException)
   ["rel*", k] ["cancel*", cls, k] ["fire*", k, ok]
                          selector forms used by the random generator: the k-th
                          (mod n) *eligible* item; cls in pending|held|running|any
 Items are numbered by creation order.  An operation that is not enabled in the
 model (e.g. release by a non-holder: misuse, outside the statement) is skipped.
 """
+import asyncio
+
 from hypothesis import strategies as st
 
 from lib.core import hyp_run, guarded, KnownFindingSkip, PropertyViolation
@@ -46,12 +54,48 @@ RUN_BEHS = ("ret", "raise", "dfr")
 RUN_LATER = ("dfr", "chain", "chainbad", "paused", "dfr2", "coro")    # result available only after fire(s)
 RUN_CALLED_UNAVAILABLE = ("chain", "chainbad", "paused")               # returned Deferred has .called set
 RUN_BEHS_ALL = ("ret", "raise", "dok", "dbad") + RUN_LATER
+FAMILIES = ("exit", "kbi", "genexit", "acancel", "base")
+RUN_RAISE_BASE = tuple("raise:" + f for f in FAMILIES)
+RUN_BEHS_FAIL = ("ret", "dfr", "raise") + RUN_RAISE_BASE      # scope C: how a function fails synchronously
 KIND_CODE = {"plain": "P", "rr": "R", "ret": "r", "raise": "x", "dfr": "d", "dok": "o", "dbad": "b",
+             "raise:exit": "X1", "raise:kbi": "X2", "raise:genexit": "X3", "raise:acancel": "X4", "raise:base": "X5",
              "chain": "c", "chainbad": "e", "paused": "p", "dfr2": "2", "coro": "a"}
 
 
 class HarnessFault(Exception):
     """Raised / delivered by generated run() functions."""
+
+
+# "functions that succeed, fail or return Deferreds": failing includes raising an
+# exception outside the Exception hierarchy; run() must still release exactly once.
+class HarnessExit(SystemExit):
+    pass
+
+
+class HarnessInterrupt(KeyboardInterrupt):
+    pass
+
+
+class HarnessGeneratorExit(GeneratorExit):
+    pass
+
+
+class HarnessAsyncCancelled(asyncio.CancelledError):
+    pass
+
+
+class HarnessBase(BaseException):
+    pass
+
+
+FAMILY_CLASS = {"exit": HarnessExit, "kbi": HarnessInterrupt, "genexit": HarnessGeneratorExit,
+                "acancel": HarnessAsyncCancelled, "base": HarnessBase}
+HARNESS_BASE_EXCEPTIONS = tuple(FAMILY_CLASS.values())
+
+
+def _fail_class(ok):
+    """ok: False -> HarnessFault, family name -> that class."""
+    return HarnessFault if ok is False else FAMILY_CLASS[ok]
 
 
 # ---------------------------------------------------------------------------
@@ -100,7 +144,12 @@ class Model:
                 it["state"] = "done"
                 # the function's result is available: release, then the run() Deferred fires
                 self._release()
-                self.results[i] = ("ok", ("v", i)) if sub in ("ret", "dok") else ("fail", "HarnessFault")
+                if sub in ("ret", "dok"):
+                    self.results[i] = ("ok", ("v", i))
+                elif sub in RUN_RAISE_BASE:
+                    self.results[i] = ("fail", FAMILY_CLASS[sub[6:]].__name__)
+                else:
+                    self.results[i] = ("fail", "HarnessFault")
 
     def _release(self):
         self.releases += 1
@@ -132,12 +181,12 @@ class Model:
 
     def fire(self, i, ok):
         it = self.items[i]
-        if it["stage"] == 2 and ok:
+        if it["stage"] == 2 and ok is True:
             it["stage"] = 1          # outer fired; its callback now waits on the inner Deferred
             return
         it["state"] = "done"
         self._release()
-        self.results[i] = ("ok", ("fv", i)) if ok else ("fail", "HarnessFault")
+        self.results[i] = ("ok", ("fv", i)) if ok is True else ("fail", _fail_class(ok).__name__)
 
     # enabled operations (absolute form) for the exhaustive exploration
     def enabled(self, run_behs=RUN_BEHS):
@@ -235,7 +284,7 @@ class World:
 
     def run(self, beh):
         i = len(self.items)
-        item = dict(d=None, fire=[], fail=False, kind="run", sub=beh, calls=0)
+        item = dict(d=None, fire=[], fail=True, kind="run", sub=beh, calls=0)
         self.items.append(item)
         defer = self.defer
 
@@ -251,6 +300,8 @@ class World:
                 return ("v", i)
             if beh == "raise":
                 raise HarnessFault(i)
+            if beh in RUN_RAISE_BASE:
+                raise FAMILY_CLASS[beh[6:]](i)
             if beh == "dok":
                 return defer.succeed(("v", i))
             if beh == "dbad":
@@ -272,8 +323,8 @@ class World:
                 return outer
             if beh == "paused":
                 def outcome(v):
-                    if item["fail"]:
-                        raise HarnessFault(i)
+                    if item["fail"] is not True:
+                        raise _fail_class(item["fail"])(i)
                     return v
                 held = defer.Deferred()
                 held.addCallback(outcome)
@@ -298,13 +349,13 @@ class World:
         item = self.items[i]
         target = item["fire"].pop(0)
         if isinstance(target, tuple):
-            item["fail"] = not ok
+            item["fail"] = ok          # True = succeed, False / family = how it fails
             target[1].unpause()
-        elif ok:
+        elif ok is True:
             target.callback(("fv", i))
         else:
             del item["fire"][:]
-            target.errback(HarnessFault(i))
+            target.errback(_fail_class(ok)(i))
 
     def index_of(self, d):
         for i, it in enumerate(self.items):
@@ -334,7 +385,7 @@ def _resolve(model, op):
         return ["cancel", el[op[2] % len(el)]] if el else None
     if name == "fire*":
         el = model.eligible("running")
-        return ["fire", el[op[1] % len(el)], bool(op[2])] if el else None
+        return ["fire", el[op[1] % len(el)], op[2] if op[2] in FAMILY_CLASS else bool(op[2])] if el else None
     return list(op)
 
 
@@ -381,6 +432,9 @@ def _compare(ctx, case, w, m, step, op):
         who = [i for i, it in enumerate(m.items) if it["state"] == "running"]
         bad("run-released-before-function-result-available",
             f"release() called {w.releases} times, model {m.releases}; run items {who} still wait for their function's result")
+    if w.releases < m.releases and op[0] == "run" and (op[1] == "raise" or op[1] in RUN_RAISE_BASE):
+        bad("run-function-raised-without-release",
+            f"function of {op} raised; release() called {w.releases} times, model {m.releases}")
     if w.holders != m.holders():
         bad("holder-count", f"{w.holders} holders (grants minus release() calls), model {m.holders()}")
     if w.releases != m.releases:
@@ -409,6 +463,15 @@ def execute(ctx, case):
     m = Model(limit)
     resolved = []
     flags = set()
+
+    def real(fn, *a):
+        # a function's BaseException must end up in run()'s Deferred, not in the caller
+        try:
+            fn(*a)
+        except HARNESS_BASE_EXCEPTIONS as e:
+            ctx.violation("run-function-exception-propagated", case,
+                          f"{type(e).__name__}{e.args} came out of {getattr(fn, '__name__', fn)}")
+
     for step, op0 in enumerate(case["ops"]):
         op = _resolve(m, op0)
         if op is None or not _enabled(m, op):
@@ -423,13 +486,16 @@ def execute(ctx, case):
             if m.free == 0:
                 flags.add("acquire while full")
             m.new("acq", op[1])
-            w.acq(op[1])
+            real(w.acq, op[1])
         elif name == "run":
             if m.free == 0:
                 flags.add("run while full")
             flags.add("run shape " + op[1])
+            if op[1] in RUN_RAISE_BASE:
+                flags.add("run function raises a non-Exception BaseException"
+                          + (" while queued behind holders" if m.free == 0 else " on a free primitive"))
             m.new("run", op[1])
-            w.run(op[1])
+            real(w.run, op[1])
         elif name == "rel":
             if m.queue:
                 flags.add("release hands over to a waiter")
@@ -443,7 +509,7 @@ def execute(ctx, case):
                 if k >= 2:
                     flags.add("re-entrant release chain >= 2")
             m.release(op[1])
-            w.p.release()
+            real(w.p.release)
         elif name == "cancel":
             npend = len(m.queue)
             st_before = m.items[op[1]]["state"]
@@ -462,15 +528,17 @@ def execute(ctx, case):
                 flags.add("cancel granted acquisition")
             else:
                 flags.add("cancel finished item")
-            w.items[op[1]]["d"].cancel()
+            real(w.items[op[1]]["d"].cancel)
         elif name == "fire":
-            flags.add("fire ok" if op[2] else "fire fail")
-            if m.items[op[1]]["stage"] == 2 and op[2]:
+            flags.add("fire ok" if op[2] is True else "fire fail")
+            if op[2] in FAMILY_CLASS:
+                flags.add("function Deferred fails with a non-Exception BaseException")
+            if m.items[op[1]]["stage"] == 2 and op[2] is True:
                 flags.add("fire first stage of a two-stage function Deferred")
             elif m.queue:
                 flags.add("run completion hands over to a waiter")
             m.fire(op[1], op[2])
-            w.fire(op[1], op[2])
+            real(w.fire, op[1], op[2])
         _compare(ctx, case, w, m, step, op)
         if len(m.queue) >= 3:
             flags.add("queue >= 3")
@@ -543,7 +611,8 @@ def _bfs(ctx, kind, limit, prefix, depth, run_behs=RUN_BEHS):
         frontier = nxt
     ctx.count("exhaustive: transitions executed", transitions)
     ctx.count("exhaustive: states expanded or reached (per shard)", len(seen))
-    tag = "" if run_behs is RUN_BEHS else " (all function-result shapes)"
+    tag = {RUN_BEHS: "", RUN_BEHS_ALL: " (all function-result shapes)",
+           RUN_BEHS_FAIL: " (exception families)"}[tuple(run_behs)]
     ctx.extra[f"exhaustive transitions {kind}{limit}{tag}"] = ctx.extra.get(f"exhaustive transitions {kind}{limit}{tag}", 0) + transitions
     return frontier
 
@@ -581,9 +650,11 @@ def _history_strategy(max_ops):
         st.tuples(st.just("acq"), st.just("plain")).map(list),
         st.tuples(st.just("run"), st.sampled_from(RUN_BEHS_ALL)).map(list),
         st.tuples(st.just("run"), st.sampled_from(RUN_LATER)).map(list),
+        st.tuples(st.just("run"), st.sampled_from(RUN_RAISE_BASE)).map(list),
         st.tuples(st.just("rel*"), idx).map(list),
         st.tuples(st.just("cancel*"), st.sampled_from(["pending", "pending", "held", "running", "any"]), idx).map(list),
         st.tuples(st.just("fire*"), idx, st.booleans()).map(list),
+        st.tuples(st.just("fire*"), idx, st.sampled_from(FAMILIES)).map(list),
     )
     return st.builds(
         dict,
@@ -606,6 +677,10 @@ def run(ctx):
     dB = ctx.pick(4, 5)
     configs += [("lock", 1, dB, RUN_BEHS_ALL), ("sem", 1, dB, RUN_BEHS_ALL),
                 ("sem", 2, dB, RUN_BEHS_ALL), ("sem", 3, dB + 1, RUN_BEHS_ALL)]
+    # scope C: how the function fails synchronously, every exception family
+    dC = ctx.pick(4, 5)
+    configs += [("lock", 1, dC, RUN_BEHS_FAIL), ("sem", 1, dC, RUN_BEHS_FAIL),
+                ("sem", 2, dC, RUN_BEHS_FAIL), ("sem", 3, dC + 1, RUN_BEHS_FAIL)]
     try:
         _explore_all(ctx, configs, parallel=ctx.thorough)
     except PropertyViolation:
